@@ -251,6 +251,45 @@ pub fn run_local_idle(idle_ms: u32, gap_ms: u32, n: u32) -> Result<(Option<u32>,
     })
 }
 
+/// (d) a reader that is late: a frame arrives `write_at_ms` after the transport was bound (before the
+/// idle deadline), nobody polls the transport until `poll_at_ms` (after the deadline), and then it is
+/// polled twice: right away, and again after another 3/4 of the time-out with one more frame written
+/// half-way.  What the polls return: "frame" | "timeout" | "eof" | "pending" | "error:.."
+pub fn run_late_reader(idle_ms: u32, write_at_ms: u32, poll_at_ms: u32) -> Result<Vec<String>, String> {
+    use fe2o3_amqp::frames::amqp::Frame;
+    use fe2o3_amqp::transport::Transport;
+    use futures_util::StreamExt;
+    use tokio::io::AsyncWriteExt;
+    let rt = paused_runtime();
+    rt.block_on(async move {
+        let (a, mut b) = tokio::io::duplex(1 << 16);
+        let mut transport: Transport<_, Frame> = Transport::bind(a, 512, Some(Duration::from_millis(idle_ms as u64)));
+        let empty = [0u8, 0, 0, 8, 2, 0, 0, 0];
+        async fn poll_once<Io: tokio::io::AsyncRead + tokio::io::AsyncWrite + Unpin>(t: &mut Transport<Io, Frame>) -> String {
+            match tokio::time::timeout(Duration::from_micros(10), t.next()).await {
+                Err(_) => "pending".into(),
+                Ok(None) => "eof".into(),
+                Ok(Some(Ok(_))) => "frame".into(),
+                Ok(Some(Err(e))) => {
+                    let d = format!("{:?}", e);
+                    if d.contains("IdleTimeoutElapsed") { "timeout".into() } else { format!("error:{}", d) }
+                }
+            }
+        }
+        let mut out = vec![];
+        tokio::time::sleep(Duration::from_millis(write_at_ms as u64)).await;
+        b.write_all(&empty).await.map_err(|e| e.to_string())?;
+        tokio::time::sleep(Duration::from_millis((poll_at_ms - write_at_ms) as u64)).await;
+        out.push(poll_once(&mut transport).await);
+        // the deadline counts from the moment the frame was read
+        tokio::time::sleep(Duration::from_millis(idle_ms as u64 * 3 / 8)).await;
+        b.write_all(&empty).await.map_err(|e| e.to_string())?;
+        tokio::time::sleep(Duration::from_millis(idle_ms as u64 * 3 / 8)).await;
+        out.push(poll_once(&mut transport).await);
+        Ok(out)
+    })
+}
+
 pub fn gen_chan_case(rng: &mut Rng) -> ChanCase {
     let local_max = *rng.pick(&[0u16, 1, 2, 3, 255, 65535]);
     let remote_max = *rng.pick(&[0u16, 1, 2, 4, 100, 65535]);
@@ -303,6 +342,17 @@ pub fn main(opts: &Opts) {
             }
             println!("REPLAY: property holds on this scenario");
             std::process::exit(0);
+        }
+        if let Some(h) = j.get("late_reader") {
+            let g = |k: &str| h.get(k).and_then(|x| x.as_u64()).unwrap_or(0) as u32;
+            let r = run_late_reader(g("idle_ms"), g("write_at_ms"), g("poll_at_ms"));
+            println!("{:?}", r);
+            if r == Ok(vec!["frame".to_string(), "frame".to_string()]) {
+                println!("REPLAY: property holds on this scenario");
+                std::process::exit(0);
+            }
+            println!("REPLAY: property violated [timed-out-although-frames-arrived-in-time]");
+            std::process::exit(1);
         }
         if let Some(h) = j.get("local_idle") {
             let idle = h.get("idle_ms").and_then(|x| x.as_u64()).unwrap_or(1000) as u32;
@@ -414,6 +464,36 @@ pub fn main(opts: &Opts) {
                 }
             }
             Err(e) => report.finding(Finding { kind: "violation", key: "local-idle-scenario-failed".into(), description: e, replay: json!({"property": "C17", "module": "limits", "local_idle": {"idle_ms": idle, "gap_ms": gap, "n": n}}) }),
+        }
+    }
+    // (d)
+    for &idle in &[40u32, 200, 1000, 30000] {
+        for (wn, wd) in [(1u32, 4u32), (3, 4), (99, 100)] {
+            for (pn, pd) in [(5u32, 4u32), (2, 1), (7, 1)] {
+                let (w, p) = (idle * wn / wd, idle * pn / pd);
+                report.evaluations += 1;
+                report.count("late_reader_probes");
+                match run_late_reader(idle, w, p) {
+                    Ok(polls) => {
+                        report.nontrivial_case(fnv(&format!("late{}/{}/{}", idle, w, p)));
+                        if polls != ["frame", "frame"] {
+                            report.finding(Finding {
+                                kind: "violation",
+                                key: "timed-out-although-frames-arrived-in-time".into(),
+                                description: format!(
+                                    "idle-time-out {} ms; a frame arrived at {} ms and was still unread when the transport was next polled at {} ms, one more arrived 3/8 of the time-out after that read: the polls returned {:?}, expected both frames (frames kept arriving in time; only the reader was late)",
+                                    idle, w, p, polls
+                                ),
+                                replay: json!({"property": "C17", "module": "limits", "late_reader": {"idle_ms": idle, "write_at_ms": w, "poll_at_ms": p}}),
+                            });
+                        }
+                        // the model of one poll: input pending and deadline passed
+                        lines.push("N poll 1 1".into());
+                        imp.push(polls[0].clone());
+                    }
+                    Err(e) => report.finding(Finding { kind: "violation", key: "late-reader-scenario-failed".into(), description: e, replay: json!({"property": "C17", "module": "limits", "late_reader": {"idle_ms": idle, "write_at_ms": w, "poll_at_ms": p}}) }),
+                }
+            }
         }
     }
     if driver_available() {
